@@ -311,12 +311,20 @@ impl Prop for PWalk {
             } else if nm.starts_with('-') {
                 format!("./{}", nm)
             } else {
-                match rng.below(if self.flavour == "C18" { 6 } else { 9 }) {
+                // a real directory child of this starting point, for spellings through ".."
+                let kid = (1..=n).find(|i| tree[i - 1]["parent"].as_u64() == Some(t as u64) && tree[i - 1]["kind"] == "d").map(|i| json_to_string(&tree[i - 1]["name"]));
+                match rng.below(if self.flavour == "C18" { 8 } else { 12 }) {
                     0 => format!("./{}", nm),
                     1 if is_dirlike => format!("{}/", nm),
                     2 if is_dirlike => format!("{}//", nm),
                     3 => format!("../w/{}", nm),
                     4 => format!(".//{}", nm),
+                    // "." and ".." are components like any other: the last one is the entry's name
+                    5 if is_dirlike => format!("{}/.", nm),
+                    6 if is_dirlike => match kid {
+                        Some(k) => format!("{}/{}/..", nm, k),
+                        None => format!("{}/./", nm),
+                    },
                     _ => nm.clone(),
                 }
             };
